@@ -202,11 +202,13 @@ func (s *seqSim) checkRaw(b Backend, op Op, res Res) {
 
 func (s *seqSim) sig() string {
 	if s.mode.Wild {
-		if s.breach != "" {
-			return "wild-ids:" + s.breach
-		}
+		// root cause first: the first contract breach whose outcome the
+		// model had to take from the store, else the breach of this call
 		if s.followed != "" {
 			return "wild-ids:after-" + s.followed
+		}
+		if s.breach != "" {
+			return "wild-ids:" + s.breach
 		}
 		return "wild-ids"
 	}
@@ -240,7 +242,11 @@ func (s *seqSim) doOp(op Op, fault string) {
 		results[i] = res
 		s.checkRaw(b, op, res)
 	}
-	r.Logf("%s -> %s", op, results[0])
+	if len(s.bs) == 2 && results[0].Key(false) != results[1].Key(false) {
+		r.Logf("%s -> %s: %s | %s: %s", op, s.bs[0].Name(), results[0], s.bs[1].Name(), results[1])
+	} else {
+		r.Logf("%s -> %s", op, results[0])
+	}
 	s.breach = ""
 	if s.mode.Wild {
 		s.breach = contractBreach(s.world, op)
